@@ -75,7 +75,7 @@ Lemma exec_clean_mono c o c' ev s d :
   op_wf o -> exec c o = Some (c', ev) -> clean_seq c s d <= clean_seq c' s d.
 Proof.
   intros W E. unfold Keeper.clean_seq.
-  destruct o as [p|p pf h|p a pf h|cp|cp pf h|nm cl|nm h sn t|rs|dt]; cbn [Keeper.exec] in E.
+  destruct o as [p|p pf h|p a pf h|cp|cp pf h|nm cl|nm h sn t|rs|dt|ap]; cbn [Keeper.exec] in E.
   - apply send_packet_inv in E. destruct E as (_ & _ & _ & _ & ->). cbn [Keeper.c_kv with_kv].
     rewrite !lookup_set_neq by fam_neq. lia.
   - apply msg_recv_inv in E. destruct E as (_ & _ & _ & _ & F & _).
@@ -102,6 +102,7 @@ Proof.
     destruct (negb _); [discriminate|]. inversion E; subst. cbn. lia.
   - destruct (set_rules rs); [|discriminate]. inversion E; subst. cbn. lia.
   - inversion E; subst. cbn. lia.
+  - inversion E; subst. cbn. lia.
 Qed.
 
 (** receipts persist until the clean point passes them *)
@@ -111,7 +112,7 @@ Lemma exec_receipt_persist c o c' ev s d n :
   receipt_at c' s d n <> None \/ n <= clean_seq c' s d.
 Proof.
   intros W (Ws & Wd & Wn) E R. unfold KeeperFacts.receipt_at in *.
-  destruct o as [p|p pf h|p a pf h|cp|cp pf h|nm cl|nm h sn t|rs|dt]; cbn [Keeper.exec] in E.
+  destruct o as [p|p pf h|p a pf h|cp|cp pf h|nm cl|nm h sn t|rs|dt|ap]; cbn [Keeper.exec] in E.
   - apply send_packet_inv in E. destruct E as (_ & _ & _ & _ & ->). cbn [Keeper.c_kv with_kv].
     left. rewrite !lookup_set_neq by fam_neq. exact R.
   - apply msg_recv_inv in E. destruct E as (_ & _ & _ & R' & F & _). left.
@@ -151,6 +152,7 @@ Proof.
     destruct (negb _); [discriminate|]. inversion E; subst. left. exact R.
   - destruct (set_rules rs); [|discriminate]. inversion E; subst. left. exact R.
   - inversion E; subst. left. exact R.
+  - inversion E; subst. left. exact R.
 Qed.
 
 (** ** C02: at most one delivery per (source, destination, sequence) *)
@@ -184,7 +186,7 @@ Lemma exec_deliver_events c o c' ev :
     receipt_at c' (p_src p) (p_dst p) (p_seq p) = Some receipt_val.
 Proof.
   intros E.
-  destruct o as [p|p pf h|p a pf h|cp|cp pf h|nm cl|nm h sn t|rs|dt]; cbn [Keeper.exec] in E.
+  destruct o as [p|p pf h|p a pf h|cp|cp pf h|nm cl|nm h sn t|rs|dt|ap]; cbn [Keeper.exec] in E.
   - apply send_packet_inv in E. destruct E as (_ & _ & _ & -> & _). left. reflexivity.
   - apply msg_recv_inv in E. destruct E as (V & L & R0 & R1 & _ & _ & [D|D] & _).
     + left. exact D.
@@ -198,6 +200,7 @@ Proof.
   - destruct (create_client A c nm cl); [|discriminate]. inversion E; subst. left. reflexivity.
   - destruct (update_client A c nm h sn t); [|discriminate]. inversion E; subst. left. reflexivity.
   - destruct (set_rules rs); [|discriminate]. inversion E; subst. left. reflexivity.
+  - inversion E; subst. left. reflexivity.
   - inversion E; subst. left. reflexivity.
 Qed.
 
@@ -317,7 +320,7 @@ Lemma exec_next_send c o c' ev s d :
   next_send c' s d = next_send c s d.
 Proof.
   intros E NS. apply next_send_lookup.
-  destruct o as [p|p pf h|p a pf h|cp|cp pf h|nm cl|nm h sn t|rs|dt]; cbn [Keeper.exec] in E.
+  destruct o as [p|p pf h|p a pf h|cp|cp pf h|nm cl|nm h sn t|rs|dt|ap]; cbn [Keeper.exec] in E.
   - apply send_packet_inv in E. destruct E as (_ & _ & _ & _ & ->). cbn [Keeper.c_kv with_kv].
     rewrite lookup_set_neq by fam_neq. apply lookup_set_neq.
     intros X. apply (NS p eq_refl). symmetry. exact X.
@@ -343,6 +346,7 @@ Proof.
   - unfold update_client in E. destruct (lookup nm _); [|discriminate].
     destruct (negb _); [discriminate|]. inversion E; subst. reflexivity.
   - destruct (set_rules rs); [|discriminate]. inversion E; subst. reflexivity.
+  - inversion E; subst. reflexivity.
   - inversion E; subst. reflexivity.
 Qed.
 
@@ -375,13 +379,13 @@ Proof.
 Qed.
 
 (** sequences of the successful own sends on one pair, in order *)
-Definition sent_seq (s d : bytes) (o : op) : list N :=
+Definition sent_seq (s d : bytes) (o : op A) : list N :=
   match o with
   | OSend p => if beq (p_src p) s && beq (p_dst p) d then [p_seq p] else []
   | _ => []
   end.
 
-Fixpoint own_sends (s d : bytes) (c : chain) (ops : list op) : list N :=
+Fixpoint own_sends (s d : bytes) (c : chain) (ops : list (op A)) : list N :=
   match ops with
   | [] => []
   | o :: r =>
@@ -418,7 +422,7 @@ Proof.
           try (apply is_fam_noslash; auto with keys).
         destruct X as (_ & X1 & X2). rewrite X1, X2, !beq_refl in M. discriminate. }
       rewrite <- NX in *. apply IH; assumption.
-    + destruct o as [p|p pf h|p a pf h|cp|cp pf h|nm cl|nm h sn t|rs|dt]; try discriminate SS.
+    + destruct o as [p|p pf h|p a pf h|cp|cp pf h|nm cl|nm h sn t|rs|dt|ap]; try discriminate SS.
       cbn [sent_seq] in SS. destruct (beq (p_src p) s && beq (p_dst p) d) eqn:M; [|discriminate].
       inversion SS; subst q qs. clear SS.
       rewrite andb_true_iff in M. destruct M as [M1 M2]. apply beq_spec in M1, M2. subst s d.
